@@ -77,6 +77,11 @@ func init() {
 				sp := Spec{Prompt: prompt, Mode: "emacs", Runs: 1, Width: w, Height: 30, Completer: cands,
 					Binds: []Bind{{Seq: `\C-x\C-zq`, Cmd: "complete"}, {Seq: `\C-x\C-zr`, Cmd: "possible-completions"}, {Seq: `\C-x\C-zs`, Cmd: "menu-complete"}}}
 				cl := "completion"
+				if r.Intn(4) == 0 {
+					// the application keeps a hint under the input; commands add theirs (numeric argument, registers, searches)
+					sp.Persist = []string{"persistent hint", "a hint that is longer than the narrowest of the terminals"}[r.Intn(2)]
+					cl += "/persistent-hint"
+				}
 				if r.Intn(2) == 0 {
 					sp.Inputrc = "set history-autosuggest on\n"
 					cl += "/autosuggest"
@@ -95,7 +100,7 @@ func init() {
 				// possible-completions (M-?) lists without inserting; TAB completes, then cycles; Shift-TAB goes back;
 				// a typed character or C-g closes the menu
 				for k := 2 + r.Intn(8); k > 0; k-- {
-					keys = append(keys, []string{"\t", "\t", "\t", "\x1b[Z", "\x1b?", "b", "\x07", "\x7f", "\x18\x1aq", "\x18\x1aq", "\x18\x1ar", "\x18\x1as", "\x13", "z"}[r.Intn(14)])
+					keys = append(keys, []string{"\t", "\t", "\t", "\x1b[Z", "\x1b?", "b", "\x07", "\x7f", "\x18\x1aq", "\x18\x1aq", "\x18\x1ar", "\x18\x1as", "\x13", "z", "\x1b2", "\x1b-", "\x18(", "\x18(", "\x12", "\x1b", "\x18)"}[r.Intn(21)])
 				}
 				sp.Chunks = hexChunks(keys)
 				return Case{Specs: []Spec{sp}, Class: cl, Meta: map[string]string{"part": "completion", "class": cl, "pre": fmt.Sprint(pre)}}
